@@ -270,19 +270,24 @@ impl StringPool {
         self.is_modified = true;
         // TODO: change the internal representation of StringPool to make this
         // more efficient.
-        for (index, &mut (ref mut st, ref mut refcount)) in
+        // Prefer an entry that already holds the string (taking an unused
+        // entry first would store the string twice, and could leave no room
+        // for a string that is really new).
+        let mut first_unused = None;
+        for (index, &mut (ref st, ref mut refcount)) in
             self.strings.iter_mut().enumerate()
         {
             if *refcount == 0 {
                 // (In a damaged file, an unused entry can still have text.)
-                *st = string;
-                *refcount = 1;
-                return Some(StringRef((index + 1) as i32));
-            }
-            if *st == string && *refcount < u16::MAX {
+                first_unused = first_unused.or(Some(index));
+            } else if *st == string && *refcount < u16::MAX {
                 *refcount += 1;
                 return Some(StringRef((index + 1) as i32));
             }
+        }
+        if let Some(index) = first_unused {
+            self.strings[index] = (string, 1);
+            return Some(StringRef((index + 1) as i32));
         }
         if self.strings.len() >= self.max_num_strings() {
             return None;
